@@ -123,6 +123,9 @@ package collection
 //@   loop 1 iteration-ensures [fired] !removed0 && circle0 <= 0 && diff0 <= 0 ==> len(tasks) == n0 + 1 && tasks[n0].key == t.key && tasks[n0].value == t.value
 //@     | && calls(l.Remove, e0) == 1 && calls(w.timers.Del, t.key) == 1 && calls(PushBack) == 0
 //@   loop 1 iteration-ensures [advance] e == ret(e0.Next)
+// the successor is read BEFORE the entry is unlinked: list.Remove clears the element's links, a Next() after it is nil
+// and the scan of the slot would end there - every live entry behind a removed one would miss its tick by a revolution
+//@   loop 1 iteration-ensures [successor-read-before-unlinking] calls(Remove) >= 1 ==> calls(Next) == 1 && before(Next, Remove)
 //@   ensures [handed-over] calls(w.runTasks) == 1
 //@   ensures [batch-owned-by-its-runner] cap(arg(w.runTasks, 1)) == 0 || fresh(arg(w.runTasks, 1))
 
